@@ -564,7 +564,7 @@ fn lex_line(line: &str, bang_comment: bool) -> Vec<Tok> {
                 }
                 return out;
             }
-            ' ' => {
+            ' ' | '\t' => {
                 if st == St::M {
                     out.push(Tok::Space);
                     st = St::S;
@@ -927,6 +927,11 @@ fn gen_streams(rng: &mut Rng, with_faults: bool) -> StreamCase {
         "a", "b c", "{d", "e}", "", "f%x", "  g  ", "{", "}", "h}i", "j{k}l", "m!n", " ", "{o{p}", "q}}r",
         "s}t{u", "}{", "v}{w}x", "{y}}{z", "a}b{c{d", "e{f}g}h{", "}}", "{{", "i }j{ k", "%}{", "l!}{",
         "m\r", "n o\r", "\r", "{p\r", "q}\rr", "s \r", "  \r",
+        // Characters that Unicode calls white space but TeX does not: they are ordinary characters,
+        // also at the end of a line (only spaces are removed there). A tab is a space *token* but
+        // is not removed from the end of the line either.
+        "t\u{b}", "u\u{a0}", "v\u{2003} ", "\u{3000}", "w\u{85}", "{x\u{a0}", "y}\u{b}", "\u{a0}z\u{2028}",
+        "a\t", "\tb", "c \t", "{d\t}", "\t",
     ];
     let nfiles = 1 + rng.below(4);
     let mut files = vec![];
